@@ -688,12 +688,13 @@ class Ref:
                 return "%d %d" % (r, h.size())
             if h.done is not None:
                 return None
-            h.decoding = True
             data = hexb(t[2])
             before = len(h.buf)
             if len(data) == 0:
                 return "0 0"
             h.buf += data
+            # the sequence leaves SEQ_BLOCK only when a correct Index Indicator has been read
+            h.decoding = h.buf[0] == 0
             r, pos = h.decode_all(h.buf)
             if r != OK:
                 h.done = (r, pos)
